@@ -131,6 +131,8 @@ package network
 //@   modifies nothing
 //@   ensures [fresh] fresh(result)
 //@   ensures [runtime] rtZero(result) && result.ActivationSum == 0.0
+//@   ensures [empty] fresh(result.Incoming) && fresh(result.Outgoing) && len(result.Incoming) == 0 && len(result.Outgoing) == 0 && result.Trait == nil && result.PhenotypeAnalogue == nil && len(result.Params) == 0
+//@   ensures [defaults] result.Id == 0 && result.NeuronType == HiddenNeuron && result.ActivationType == math.SigmoidSteepenedActivation
 //@ func (*NNode).Flushback
 //@   props C13
 //@   requires n != nil
